@@ -1,3 +1,5 @@
+//go:build !race
+
 // Package vsync replaces "sync" in the instrumented copy. The types block on
 // channels, so that a goroutine waiting for a lock is *durably* blocked in
 // the sense of testing/synctest (a real sync.Mutex waiter is not), and every
